@@ -89,6 +89,42 @@ def dump_mir(work, crates=('data',)):
     return md, errs
 
 
+def validate_e2(work, seed=0, spec_entries=None):
+    """translator validation of engine E2 (see mirsym/e2_validate.py): same concrete inputs through the native build and the
+    MIR executor. returns dict(ok, compared, disagreements, ...). spec_entries: [[table index, validator fn]] -> validate the
+    spec-crate validators instead of the autosar-data kernels"""
+    cases = os.path.join(work, 'e2-oracle-cases.txt')
+    nat = os.path.join(work, 'e2-oracle-native.txt')
+    tool = os.path.join(VERIF, 'mirsym', 'e2_validate.py')
+    crate = 'spec' if spec_entries else 'data'
+    if spec_entries:
+        p = subprocess.run(['python3-vt', tool, 'genspec', cases, str(seed), json.dumps(spec_entries)], capture_output=True, text=True)
+    else:
+        p = subprocess.run(['python3-vt', tool, 'gen', cases, str(seed)], capture_output=True, text=True)
+    if p.returncode != 0:
+        return dict(ok=False, error='case generation failed: ' + p.stderr[-500:])
+    if os.path.exists(nat):
+        os.remove(nat)
+    e = env_for(work)
+    e['VERIF_ORACLE_IN'] = cases
+    e['VERIF_ORACLE_OUT'] = nat
+    cmd = ['cargo', 'test', '--offline', '-p', CRATES[crate], '--lib', '--target-dir', os.path.join(work, 'target-native'),
+           'verif_oracle', '--', '--nocapture', '--test-threads', '1']
+    try:
+        q = subprocess.run(cmd, cwd=REPO, env=e, capture_output=True, text=True, timeout=1200)
+    except subprocess.TimeoutExpired:
+        return dict(ok=False, error='native oracle timed out')
+    if q.returncode != 0 or not os.path.exists(nat):
+        return dict(ok=False, error='native oracle failed: ' + (q.stdout + q.stderr)[-1500:])
+    rcmd = (['python3-vt', tool, 'runspec', os.path.join(work, 'mir'), cases, nat, json.dumps(spec_entries)] if spec_entries
+            else ['python3-vt', tool, 'run', os.path.join(work, 'mir'), cases, nat])
+    r = subprocess.run(rcmd, capture_output=True, text=True, timeout=1200, env=dict(os.environ, VERIF_REPO=REPO))
+    try:
+        return json.loads(r.stdout.strip().split('\n')[-1])
+    except Exception:
+        return dict(ok=False, error='validator crashed: ' + (r.stdout + r.stderr)[-1500:])
+
+
 def run_e2(work, spec, known, part=None):
     """run one E2 harness (one partition) in its own process; returns the result dict"""
     params = dict(spec.params)
